@@ -57,6 +57,8 @@ builtins._symx_atom = _atom
 # ------------------------------------------------------------------ formulas
 def text(f):
     k = f[0]
+    if k == "flat":
+        return "unparenthesised: " + flat(f[1]).replace("_symx_atom", "A")
     if k == "atom":
         return f"_symx_atom({f[1]})"
     if k in ("not", "always", "eventually", "next"):
@@ -91,6 +93,118 @@ def fltl(f, pos, L, cell):
     raise ValueError(k)
 
 
+def flat(f):
+    """Infix text WITHOUT parentheses (precedence is then decided by the grammar)."""
+    k = f[0]
+    if k == "atom":
+        return f"_symx_atom({f[1]})"
+    if k in ("not", "always", "eventually", "next"):
+        return f"{k} {flat(f[1])}"
+    return f"{flat(f[1])} {k} {flat(f[2])}"
+
+
+class RefSyntaxError(Exception):
+    pass
+
+
+def ref_parse(txt):
+    """Reference reading of an unparenthesised temporal formula, from the precedence stated by the
+    reference examples and the grammar's own comments (loosest to tightest):
+        until  <  always/eventually/next (prefix: scope extends right up to an `until`)  <  implies
+               <  or  <  and  <  not  <  atoms / parenthesised groups
+    `until` and `implies` are non-associative; a prefix operator may start the right operand of
+    implies / or / and / not."""
+    toks = txt.replace("(", " ( ").replace(")", " ) ").split()
+    # re-join atom calls "_symx_atom ( 0 )"
+    out, i = [], 0
+    while i < len(toks):
+        if toks[i] == "_symx_atom":
+            out.append(("atom", int(toks[i + 2])))
+            i += 4
+        else:
+            out.append(toks[i])
+            i += 1
+    toks = out
+    pos = [0]
+
+    def peek():
+        return toks[pos[0]] if pos[0] < len(toks) else None
+
+    def eat(t=None):
+        x = peek()
+        if t is not None and x != t:
+            raise RefSyntaxError(f"expected {t} got {x}")
+        pos[0] += 1
+        return x
+
+    PRE = ("next", "eventually", "always")
+
+    def until_expr():
+        a = above_until()
+        if peek() == "until":
+            eat()
+            b = above_until()
+            if peek() == "until":
+                raise RefSyntaxError("until is not associative")
+            return ("until", a, b)
+        return a
+
+    def above_until():
+        if peek() in PRE:
+            return prefix()
+        return implication()
+
+    def prefix():
+        op = eat()
+        return (op, above_until())
+
+    def implication():
+        a = disj()
+        if peek() == "implies":
+            eat()
+            b = prefix() if peek() in PRE else disj()
+            if peek() == "implies":
+                raise RefSyntaxError("implies is not associative")
+            return ("implies", a, b)
+        return a
+
+    def disj():
+        a = conj()
+        while peek() == "or":
+            eat()
+            b = prefix() if peek() in PRE else conj()
+            a = ("or", a, b)
+        return a
+
+    def conj():
+        a = inv()
+        while peek() == "and":
+            eat()
+            b = prefix() if peek() in PRE else inv()
+            a = ("and", a, b)
+        return a
+
+    def inv():
+        if peek() == "not":
+            eat()
+            b = prefix() if peek() in PRE else inv()
+            return ("not", b)
+        if peek() == "(":
+            eat()
+            a = until_expr()
+            eat(")")
+            return a
+        x = eat()
+        if isinstance(x, tuple):
+            return x
+        raise RefSyntaxError(f"unexpected {x}")
+
+    r = until_expr()
+    if peek() is not None:
+        raise RefSyntaxError(f"trailing {peek()}")
+    return r
+
+
 UN = ["not", "always", "eventually", "next"]
 BIN = ["and", "or", "implies", "until"]
 
@@ -112,6 +226,8 @@ def formulas(depth, atoms):
 
 
 def depth_of(f):
+    if f[0] == "flat":
+        return depth_of(f[1])
     return 0 if f[0] == "atom" else 1 + max(depth_of(x) for x in f[1:])
 
 
@@ -122,6 +238,8 @@ def is_temporal(f):
 # ------------------------------------------------------------------ programs
 def program(f, where):
     req = f"require {text(f)}"
+    if f[0] == "flat":
+        req = f"require {flat(f[1])}"
     if where == "top":
         return f"ego = new Object\n{req}\n"
     if where == "setup":
@@ -196,7 +314,8 @@ def harness_for(f, where, steps):
             L = 2  # Sub runs during time steps 0 and 1 only
         if sim is not None:
             ctx.check("trajectory-has-one-state-per-step", len(sim.result.trajectory) == steps + 1)
-        want = fltl(f, start, L, _cell)
+        sem = ref_parse(flat(f[1])) if f[0] == "flat" else f
+        want = fltl(sem, start, L, _cell)
         if outcome == "accepted":
             ctx.check("accepted-only-if-formula-holds", want, formula=text(f), where=where, steps=steps)
         else:
@@ -255,10 +374,32 @@ def obligations(tier, seed):
         chosen += [(f, "sub", 3) for f in d1]
         chosen += [(f, w, 2) for f in rnd.sample(d2, 40) for w in ("setup", "compose", "sub")]
         chosen += [(f, "compose1", 2) for f in nt1 + rnd.sample(nt2, 30)] + [(f, "top", 1) for f in nt1 + rnd.sample(nt2, 20)]
+    # every unary operator applied to every unary operator (e.g. `not next A`, `always not A`)
+    chosen += [((u1, (u2, ("atom", 0))), "top", 3) for u1 in UN for u2 in UN]
+    chosen += [((u1, (u2, (u3, ("atom", 0)))), "top", 2) for u1 in UN for u2 in UN for u3 in UN]
+    # precedence: unparenthesised texts against the reference reading
+    d3 = [f for f in formulas(2, 2) if depth_of(f) == 2 and is_temporal(f)]
+    flats = []
+    fixed = [("until", ("eventually", ("atom", 0)), ("atom", 1)), ("implies", ("always", ("atom", 0)), ("atom", 1)),
+             ("and", ("atom", 0), ("always", ("atom", 1))), ("or", ("next", ("atom", 0)), ("atom", 1)),
+             ("until", ("atom", 0), ("eventually", ("atom", 1))), ("not", ("next", ("atom", 0))),
+             ("until", ("always", ("atom", 0)), ("atom", 1)), ("until", ("next", ("atom", 0)), ("atom", 1)),
+             ("implies", ("atom", 0), ("next", ("atom", 1))), ("or", ("atom", 0), ("until", ("atom", 1), ("atom", 0))),
+             ("and", ("not", ("atom", 0)), ("eventually", ("atom", 1))), ("until", ("not", ("atom", 0)), ("atom", 1))]
+    pool = fixed + rnd.sample(d3, 12 if tier == "quick" else 120)
+    for f in pool:
+        try:
+            ref_parse(flat(f))
+        except RefSyntaxError:
+            continue
+        flats.append((("flat", f), "top", 3))
+    chosen += flats
     obs = []
     seen = set()
     for f, where, steps in chosen:
         oid = f"{where}[{text(f).replace('_symx_atom', 'A')}]/{steps}"
+        if f[0] == "flat" and not is_temporal(ref_parse(flat(f[1]))):
+            continue
         if oid in seen:
             continue
         seen.add(oid)
